@@ -145,7 +145,7 @@ func (dist *PowerLawDistribution) SetParameters(parameters Vector) error {
 
 func (dist *PowerLawDistribution) ImportConfig(config ConfigDistribution, t ScalarType) error {
 
-  if parameters, ok := config.GetParametersAsFloats(); !ok {
+  if parameters, ok := config.GetParametersAsFloats(); !ok || len(parameters) < 2 {
     return fmt.Errorf("invalid config file")
   } else {
     alpha := NewScalar(t, parameters[0])
